@@ -9,6 +9,8 @@ B  spec -> code: every enumerated state is materialised - candidate files with p
    commented keys or written as a 0-byte / whitespace-and-comments-only file, NDN_CLIENT_* variables, store directories of every location class, a Platform
    subclass whose ordered path lists point into the scratch tree - then read_client_conf,
    default_keychain and default_face are called and their projection is compared with the state's `out`.
+   Platform selection runs through the library's own dispatch (singleton not pre-injected) for sys.platform = linux /
+   unsupported, and the Linux default transport with the new / old NFD socket path existing or not (kind "plat").
    The real Linux platform lists are compared with their documented values under a patched HOME.
 C  code -> spec: random larger configurations (up to 6 candidate files, any existence subset, independent
    key states and location classes, several default locations, file syntax variants) and random transport
@@ -22,7 +24,8 @@ SETTINGS = ('transport', 'pib', 'tpm')
 STORES = ('pib', 'tpm')
 VALID = {'pib': 'pib-sqlite3', 'tpm': 'tpm-file'}
 ENVVAR = {s: 'NDN_CLIENT_' + s.upper() for s in SETTINGS}
-INVS = ['I_Precedence', 'I_FirstFile', 'I_AsGiven', 'I_NextToFile', 'I_FallBack', 'I_Determined', 'I_Content', 'I_Face']
+INVS = ['I_Precedence', 'I_FirstFile', 'I_AsGiven', 'I_NextToFile', 'I_FallBack', 'I_Determined', 'I_Content', 'I_Values',
+        'I_Plat', 'I_Face']
 JUDGE_CFG = 'ClientConfJudge.cfg'
 
 
@@ -81,26 +84,39 @@ class World:
         return {k: str(v).replace(self.work, '<tree>') for k, v in res.items()} if isinstance(res, dict) else res
 
     # -- values of the sources
+    val = 'plain'           # value alphabet of the configuration being materialised (ClientConf: c.val)
+
     def transport_value(self, src):
+        pct = self.val == 'pct'             # IPv6 zone identifier: a '%' inside the value
         if src['k'] == 'env':
-            return 'tcp://envhost:7001'
+            return 'tcp://[fe80::1%25eth0]:7001' if pct else 'tcp://envhost:7001'
         if src['k'] == 'file':
-            return 'udp://file%dhost' % src['i']
+            return 'udp://[fe80::%%25f%d]' % src['i'] if pct else 'udp://file%dhost' % src['i']
         return self.def_transport
 
-    def given_loc(self, s, src, lc):
+    def store_name(self, s, src):
         nm = '%s-%s' % (s, srcname(src))
-        if lc == 'none':
+        return {'pct': 'p%41%zz-' + nm, 'punct': 'a =#;b-' + nm}.get(self.val, nm)
+
+    def foreign(self, s, src):
+        return s == 'tpm' and self.val == 'foreigntpm' and src['k'] != 'def'
+
+    def given_loc(self, s, src, lc):
+        nm = self.store_name(s, src)
+        if lc == 'none' or self.foreign(s, src):
             return ''
         if lc in ('absE', 'absM'):
             return os.path.join(self.work, 'abs', nm)
         if lc == 'absEc':
             return os.path.join(self.work, 'abs', 'c:' + nm)
-        return 'rel-' + nm
+        # relative: a bare name from the environment, a name with a directory part from a file
+        return 'rel-' + nm if src['k'] == 'env' else os.path.join('d', 'rel-' + nm)
 
     def store_value(self, s, src, lc):
         if src['k'] == 'def':
             return VALID[s]
+        if self.foreign(s, src):
+            return 'tpm-osxkeychain:' if src['k'] == 'env' else 'tpm-cng:'     # private-key stores of other platforms
         if lc == 'none':
             return '%s-x-%s' % (s, srcname(src))          # a scheme of its own, no location
         return '%s:%s' % (VALID[s], self.given_loc(s, src, lc))
@@ -121,6 +137,7 @@ class World:
 
     def materialise(self, c, style=None):
         """c: configuration (exist = list, key = list of dicts, env/loc/defx dicts). style: file syntax choices."""
+        self.val = c.get('val', 'plain')
         shutil.rmtree(self.work, ignore_errors=True)
         os.makedirs(os.path.join(self.work, 'cwd'))
         os.chdir(os.path.join(self.work, 'cwd'))
@@ -138,6 +155,8 @@ class World:
             lc = c['loc'][s]
             for src in self.sources(c, s):
                 g = self.given_loc(s, src, lc)
+                if not g:
+                    continue
                 if lc in ('absE', 'absEc'):
                     self.mkstore(s, g)
                 elif lc == 'relCwd':
@@ -211,8 +230,8 @@ class World:
             cands = [src for src in self.sources(c, s) + [{'k': 'def', 'i': 0}]
                      if self.store_value(s, src, c['loc'][s]).partition(':')[0] == scheme]
             marked = [src for src in cands if src['k'] != 'def' and c['loc'][s] != 'none'
-                      and os.path.basename(loc) in ('%s-%s' % (s, srcname(src)), 'c:%s-%s' % (s, srcname(src)),
-                                                    'rel-%s-%s' % (s, srcname(src)))]
+                      and os.path.basename(loc) in (self.store_name(s, src), 'c:' + self.store_name(s, src),
+                                                    'rel-' + self.store_name(s, src))]
             if len(marked) == 1:
                 src = marked[0]
             elif len(cands) == 1:
@@ -247,6 +266,11 @@ class World:
                 kc = cc.default_keychain(res['pib'], res['tpm'])
             except ValueError:
                 obs['kc'] = 'err'
+            except NameError as e:
+                # a private-key store of another platform: refused, though with NameError (the class that implements
+                # it is not imported here); the statement fixes the exception class for transport schemes only
+                foreign = locs['tpm'][0] in ('tpm-osxkeychain', 'tpm-cng')
+                obs['kc'] = 'err' if foreign else 'raised-NameError'
             except Exception as e:  # noqa
                 obs['kc'] = 'raised-' + type(e).__name__
             else:
@@ -309,6 +333,10 @@ def compare(out, obs):
 
 def classify(c):
     """input class for signatures"""
+    if c.get('val') == 'pct' and c['exist'] and any(v == 'present' for v in c['key'][min(c['exist']) - 1].values()):
+        return 'percent-in-file-value'
+    if c.get('val', 'plain') != 'plain':
+        return 'values-' + c['val']
     if c['exist'] and (c.get('body') or ['plain'] * c['n'])[min(c['exist']) - 1] in ('empty', 'blank'):
         return 'first-file-%s' % c['body'][min(c['exist']) - 1]
     if any(c['loc'][s] == 'absEc' for s in STORES):
@@ -316,23 +344,73 @@ def classify(c):
     return 'general'
 
 
+NFD_SOCKS = {'/run/nfd/nfd.sock': 'new', '/run/nfd.sock': 'old'}
+
+
+def replay_plat(ctx, world, x, out):
+    """state of kind "plat": platform selected by the REAL dispatch of Platform() (singleton not pre-injected) for
+    sys.platform = x.sys, and the Linux default transport with the new / old NFD socket existing as x says"""
+    import sys
+    real_exists, real_plat, inst = os.path.exists, sys.platform, world.Platform._instance
+
+    def fake_exists(path):
+        k = NFD_SOCKS.get(path) if isinstance(path, str) else None
+        return x[k] if k else real_exists(path)
+    world.Platform._instance = None
+    os.path.exists = fake_exists
+    sys.platform = x['sys']
+    try:
+        try:
+            plat = world.Platform()
+            again = world.Platform()
+            obs = {'cls': type(plat).__name__, 'transport': ''}
+            if obs['cls'] == 'Linux':
+                obs['transport'] = plat.default_transport()
+            if again is not plat:
+                obs['cls'] += '-not-singleton'
+        except ValueError:
+            obs = {'cls': 'err', 'transport': ''}
+        except Exception as e:  # noqa
+            obs = {'cls': 'raised-' + type(e).__name__, 'transport': ''}
+    finally:
+        os.path.exists, sys.platform, world.Platform._instance = real_exists, real_plat, inst
+    ctx.evaluations += 1
+    if obs != out:
+        field = 'class' if obs['cls'] != out['cls'] else 'default_transport'
+        ctx.violation('C20/Platform/%s/%s' % (x['sys'], field),
+                      'B: sys.platform=%s, %s exists: new=%s old=%s -> %s, reference %s' % (
+                          x['sys'], '/run/nfd/nfd.sock | /run/nfd.sock', x['new'], x['old'], json.dumps(obs), json.dumps(out)),
+                      {'kind': 'plat', 'x': x})
+
+
 def check_linux_platform(ctx, world):
-    """the real Linux platform lists against their documented values (ndn-cxx client.conf conventions)"""
-    from ndn.platform.linux import Linux
+    """the real Linux platform lists against their documented values (ndn-cxx client.conf conventions); the platform
+    object comes from the library's own dispatch"""
     home = os.path.join(world.root, 'home')
     os.makedirs(home, exist_ok=True)
     saved = os.environ.get('HOME')
     os.environ['HOME'] = home
+    inst0 = world.Platform._instance
     try:
-        p = object.__new__(Linux)
+        world.Platform._instance = None
+        try:
+            p = world.Platform()
+        except Exception as e:  # noqa
+            ctx.violation('C20/Platform/linux/class', 'Platform() raised %s: %s on sys.platform=linux' % (type(e).__name__, e),
+                          {'kind': 'platform', 'method': 'Platform()'})
+            return
+        finally:
+            world.Platform._instance = inst0
         want = {
             'client_conf_paths': [home + '/.ndn/client.conf', '/usr/local/etc/ndn/client.conf',
                                   '/opt/local/etc/ndn/client.conf', '/etc/ndn/client.conf'],
             'default_pib_scheme': 'pib-sqlite3', 'default_pib_paths': [home + '/.ndn'],
             'default_tpm_scheme': 'tpm-file', 'default_tpm_paths': [home + '/.ndn/ndnsec-key-file'],
-            'default_transport': ('unix:///run/nfd.sock' if not os.path.exists('/run/nfd/nfd.sock')
-                                  and os.path.exists('/run/nfd.sock') else 'unix:///run/nfd/nfd.sock'),
         }
+        if type(p).__name__ != 'Linux':
+            ctx.violation('C20/Platform/linux/class', 'Platform() is a %s on sys.platform=linux' % type(p).__name__,
+                          {'kind': 'platform', 'method': 'Platform()'})
+            return
         for k, v in want.items():
             got = getattr(p, k)()
             ctx.evaluations += 1
@@ -349,7 +427,7 @@ def check_linux_platform(ctx, world):
                 for v in ENVVAR.values():
                     os.environ.pop(v, None)
                 r0 = cc.read_client_conf()
-                exp0 = {'transport': want['default_transport'], 'pib': 'pib-sqlite3:' + home + '/.ndn',
+                exp0 = {'transport': p.default_transport(), 'pib': 'pib-sqlite3:' + home + '/.ndn',
                         'tpm': 'tpm-file:' + home + '/.ndn/ndnsec-key-file'}
                 with open(home + '/.ndn/client.conf', 'w') as f:
                     f.write('; comment\ntransport=tcp://homehost:1234\n;pib=pib-sqlite3:/nowhere\n')
@@ -399,7 +477,8 @@ def rand_config(rng):
         f = exist[0]
         key[f - 1] = {s: rng.choice(['absent', 'absent', 'commented']) for s in SETTINGS}
         body[f - 1] = rng.choice(['empty', 'blank']) if all(v == 'absent' for v in key[f - 1].values()) else 'blank'
-    return {'n': n, 'exist': exist, 'key': key, 'body': body, 'env': env, 'loc': loc, 'defx': defx}
+    val = rng.choice(['plain'] * 15 + ['pct', 'pct', 'punct', 'punct', 'foreigntpm'])
+    return {'n': n, 'exist': exist, 'key': key, 'body': body, 'env': env, 'loc': loc, 'defx': defx, 'val': val}
 
 
 def rand_style(rng):
@@ -421,6 +500,10 @@ def rand_uri(rng):
         scheme = rng.choice(['tcp', 'tcp4', 'tcp6', 'udp', 'udp4', 'udp6'])
     else:
         scheme = rng.choice(['ws', 'wss', 'http', 'https', 'foo', 'ether', 'dev', 'tcp5', 'udpx', 'unixx', 'fd', 'file', 'ndn'])
+        if rng.random() < 0.5:      # near miss of a supported scheme: one or two characters added
+            base = rng.choice(['tcp', 'tcp4', 'tcp6', 'udp', 'udp4', 'udp6', 'unix'])
+            scheme = rng.choice([base + rng.choice('46sx0') + rng.choice(['', '4', '6']), rng.choice('xsn') + base,
+                                 base[:-1] if len(base) > 3 else base + base])
     y = rng.random()
     if y < 0.4:
         addr = '.'.join(rng.choice(['a', 'b1', 'host', 'example', 'org', 'x-y', 'ndn', 'router7']) for _ in range(rng.randint(1, 4)))
@@ -437,7 +520,7 @@ def rand_uri(rng):
 def tojson_cfg(x):
     """state variable x of ClientConfMC (via dump) -> configuration dict used by World"""
     return {'n': x['n'], 'exist': sorted(x['exist']), 'key': x['key'], 'body': x['body'], 'env': x['env'],
-            'loc': x['loc'], 'defx': x['defx']}
+            'loc': x['loc'], 'defx': x['defx'], 'val': x['val']}
 
 
 def nontrivial(c):
@@ -464,14 +547,19 @@ def run(ctx):
     if r.violated:
         ctx.violation('C20/spec/%s' % r.violated, 'TLC: clause %s fails on the reference' % r.violated,
                       {'kind': 'spec', 'trace': r.errtrace})
+        return          # the dump of an aborted run is incomplete
     runs = {'both': dump}
     ctx.note('A: %d states (configurations + transport URIs), clauses %s hold (tlc %.0fs)' % (r.distinct, ','.join(INVS), r.wall))
     world = World()
     try:
         from ndn import client_conf as cc
         if 'B' in ctx.stages:
-            nb = nf = 0
+            nb = nf = npl = 0
             for st in urikit.read_dump(dump, ('kind', 'x', 'out')):
+                if st['kind'] == 'plat':
+                    replay_plat(ctx, world, st['x'], st['out'])
+                    npl += 1
+                    continue
                 if st['kind'] == 'face':
                     u, out = st['x'], st['out']
                     text = render_uri(u)
@@ -504,7 +592,9 @@ def run(ctx):
                                       cl, json.dumps(res), json.dumps(obs), json.dumps(out), json.dumps(c)),
                                   {'kind': 'conf', 'c': c})
             check_linux_platform(ctx, world)
-            ctx.traces += nb + nf
+            ctx.traces += nb + nf + npl
+            if not npl:
+                raise tlc.MachineryError('no platform states in the TLC dump')
             ctx.note('B: %d configurations materialised and resolved, %d transport URIs (t=%.0fs)' % (nb, nf, time.time() - t0))
             if not nb or not nf:
                 raise tlc.MachineryError('no states in the TLC dump')
@@ -565,6 +655,25 @@ def replay(ctx, path):
     with open(path) as f:
         obj = json.load(f)
     kind = obj.get('kind')
+    if kind == 'plat':
+        w = World()
+        try:
+            class _C:
+                evaluations = 0
+
+                def violation(self, sig, what, obj):
+                    print(sig, what)
+                    self.bad = True
+            c_ = _C()
+            x = obj['x']
+            out = {'cls': 'Linux' if x['sys'] == 'linux' else 'err',
+                   'transport': '' if x['sys'] != 'linux' else
+                   ('unix:///run/nfd.sock' if x['old'] and not x['new'] else 'unix:///run/nfd/nfd.sock')}
+            replay_plat(c_, w, x, out)
+            print('mismatch' if getattr(c_, 'bad', False) else 'no mismatch')
+            return 1 if getattr(c_, 'bad', False) else 0
+        finally:
+            w.close()
     if kind not in ('conf', 'face'):
         print(json.dumps(obj, indent=1)[:4000])
         return 0
